@@ -4,15 +4,21 @@ python3 - <<'PY'
 import re, sys, importlib.util
 sp = importlib.util.spec_from_file_location('spec','/tmp/probe/alloc/spec3.py'); spec=importlib.util.module_from_spec(sp); sp.loader.exec_module(spec)
 s=open('/tmp/probe/alloc/unit0.rs').read()
+ALIAS = {'RegTape::new': r'fn new<const N: usize>\(ssa', 'SsaTape::len': r'fn len\(&self\) -> usize'}
 def find_fn(s, name):
-    m = re.search(r'\n(\s*)fn %s\b' % re.escape(name), s)
+    pat = ALIAS.get(name, r'fn %s\b' % re.escape(name))
+    m = re.search(r'\n(\s*)' + pat, s)
     assert m, name
     i = m.start()+1
     j = s.index('{', m.end())
     return i, j
+for a_,b_ in getattr(spec,'REPLACE',[]):
+    assert s.count(a_)==1, a_
+    s=s.replace(a_,b_)
 def fn_span(s, name):
     base = s.index('struct RegisterAllocator')
-    m = re.search(r'\n(\s*)fn %s\b' % re.escape(name), s[base:])
+    pat = ALIAS.get(name, r'fn %s\b' % re.escape(name))
+    m = re.search(r'\n(\s*)' + pat, s[base:])
     i = base + m.start()+1
     j = s.index('{', i)
     depth=0; k=j
@@ -34,6 +40,13 @@ for key, proof in getattr(spec,'PROOFS',{}).items():
         if anchor == '$START':
             j0 = seg.index('{')
             seg = seg[:j0+1] + '\n' + proof + seg[j0+1:]
+            s = s[:i]+seg+s[k:]
+            continue
+        if anchor == '$TAILCALL':
+            # R-tail for a tail call: `alloc.finalize()` -> `proof{..} alloc.finalize()`
+            m2 = re.search(r'\n        ([a-z_\.]+\(\))\n    \}$', seg)
+            assert m2, seg[-80:]
+            seg = seg[:m2.start()] + '\n' + proof + '\n        ' + m2.group(1) + '\n    }'
             s = s[:i]+seg+s[k:]
             continue
         if anchor == '$END':
@@ -62,9 +75,13 @@ for key, proof in getattr(spec,'PROOFS',{}).items():
 for anchor, proof in getattr(spec,'PROOFS_BEFORE',{}).items():
     assert s.count(anchor)==1, (anchor, s.count(anchor))
     s = s.replace(anchor, proof.strip() + '\n                ' + anchor)
-for a_,b_ in getattr(spec,'REPLACE',[]):
-    assert s.count(a_)==1, a_
-    s=s.replace(a_,b_)
+for key, inv in getattr(spec,'LOOPS',{}).items():
+    fn, anchor = key.split('|',1)
+    i,k = fn_span(s, fn)
+    seg = s[i:k]
+    pos = seg.index(anchor) + len(anchor)
+    seg = seg[:pos] + inv + '        ' + seg[pos:]
+    s = s[:i]+seg+s[k:]
 for name,(ret,text) in spec.SPECS.items():
     base = s.index('struct RegisterAllocator')
     i,j = find_fn(s[base:], name); i+=base; j+=base
